@@ -453,6 +453,10 @@ def probe(sim, mon, snaps):
         row['statuses'] = [o.status.value for o in tel.observations]
         # C12, independent of the buffers' own counters: data streamed in and not yet removed (both tiers together)
         row['resident'] = resident
+        # C12, independent of the status flags: observations whose [begin, begin + duration) has elapsed by the previous step
+        # must be counted as finished in this row; none whose window is still open may be
+        row['elapsed'] = (sum(1 for b in mon.begin if -(-(b['t'] + b['obs'].duration) // 1) <= env.now - 1),
+                          sum(1 for b in mon.begin if b['t'] + b['obs'].duration <= env.now))
         snaps.append(row)
         yield env.timeout(1)
 
@@ -802,12 +806,14 @@ def final_oracles(sc, res):
         mon.tag('C12/row-count-differs-from-timesteps')
     for row, snap in zip(df.rows, snaps):
         for k, v in snap.items():
-            if k in ('t', 'statuses', 'resident'):
+            if k in ('t', 'statuses', 'resident', 'elapsed'):
                 continue
             if row.get(k) != v:
                 mon.tag(f'C12/{k}')
         if row.get('hot_buffer') is not None and row['hot_buffer'] + row['cold_buffer'] != hot.total_capacity + cold.total_capacity - snap['resident']:
             mon.tag('C12/buffer-columns-differ-from-resident-data')
+        if row.get('observations_finished') is not None and not (snap['elapsed'][0] <= row['observations_finished'] <= snap['elapsed'][1]):
+            mon.tag('C12/observations_finished-differs-from-elapsed-observations')
     # ---- C13 events
     ev = sim.monitor.events.rows
     KEYS = [('instrument', 'telescope', 'started'), ('instrument', 'telescope', 'finished'), ('buffer', 'buffer', 'added'),
@@ -921,11 +927,13 @@ def run_horizon(sc, segments):
             mon.tag('C12/row-count-differs-from-timesteps')
         for row, snap in zip(rows, snaps):
             for k, v in snap.items():
-                if k not in ('t', 'statuses', 'resident') and row.get(k) != v:
+                if k not in ('t', 'statuses', 'resident', 'elapsed') and row.get(k) != v:
                     mon.tag(f'C12/{k}')
             hb, cb = sim.buffer.hot[0], sim.buffer.cold[0]
             if row.get('hot_buffer') is not None and row['hot_buffer'] + row['cold_buffer'] != hb.total_capacity + cb.total_capacity - snap['resident']:
                 mon.tag('C12/buffer-columns-differ-from-resident-data')
+            if row.get('observations_finished') is not None and not (snap['elapsed'][0] <= row['observations_finished'] <= snap['elapsed'][1]):
+                mon.tag('C12/observations_finished-differs-from-elapsed-observations')
         seen = set()
         for e in sim.monitor.events.rows:
             key = (e['time'], e['actor'], e['observation'], e['event'], e['resource'])
